@@ -108,6 +108,7 @@ PROPS = {
         "runs": [
             {"profile": "c04", "n_quick": 30000, "n_thorough": 600000, "oracle": "c04", "nontrivial": "parse"},
             {"profile": "c04enum", "n_quick": 0, "n_thorough": 0, "oracle": "c04", "nontrivial": "parse", "exhaustive": True},
+            {"profile": "c14", "n_quick": 600, "n_thorough": 10000, "nontrivial": "include"},
         ],
         "observable": "ok + all parsed records | err kind line | panic (catch_unwind around parse_with_name)",
         "exhaustive": True,
@@ -145,7 +146,8 @@ PROPS = {
     "C10": {
         "runs": [{"profile": "c10", "n_quick": 1500, "n_thorough": 40000, "exhaustive": True, "oracle": "c10"},
                  {"profile": "climulti", "kind": "cli", "n_quick": 25, "n_thorough": 400, "nontrivial": "any"},
-                 {"profile": "c02", "n_quick": 3000, "n_thorough": 60000}],
+                 {"profile": "c02", "n_quick": 3000, "n_thorough": 60000},
+                 {"profile": "c17lib", "n_quick": 300, "n_thorough": 10000, "nontrivial": "any"}],
         "observable": "verdict (+ failure kind) of the query for the permuted answer",
         "exhaustive": True,
         "explanation": "exhaustive: all permutations of 11 base result sets of <= 5 rows x 4 query-level x 4 file-level sort modes x 2 result modes (5-row sets thinned in the quick tier); random: row and value permutations of larger sets",
